@@ -199,9 +199,9 @@ def _c16_ids(name):
     return lab in ("IG1", "IG2", "IG3", "SK1") or lab.startswith("gen.") or lab.startswith("skip.") or lab.endswith("IdGenerator::gen.safety") or "skip" in lab
 
 
-prop("C16", ["toposort", "rq_tables", "ids_names", "lower_cols", "rq_shape", "lineage_except", "rq_fold", "flatten_sort"], select={"ids_names": _c16_ids, "flatten_sort": lambda n: n.split(".", 1)[1] in ("FO1", "FO2", "FT1", "FT3", "flatten_other_arm.safety")},
+prop("C16", ["toposort", "rq_tables", "ids_names", "lower_cols", "rq_shape", "lineage_except", "rq_fold", "flatten_sort", "table_instance"], select={"ids_names": _c16_ids, "flatten_sort": lambda n: n.split(".", 1)[1] in ("FO1", "FO2", "FT1", "FT3", "flatten_other_arm.safety")},
      not_covered="visibility of ids across joins / sub-pipelines (redirect_mappings over node_mapping: HashMap<usize, LoweredTarget>), lower_expr, "
-                 "how push_select collects its columns, create_a_table_instance; toposort()'s Key->index map and driver loop")
+                 "how push_select collects its columns, the rest of create_a_table_instance (which declaration it reads: table_instance TI1); toposort()'s Key->index map and driver loop")
 claim("C16",
       "PARTIAL. Proved on the real code: Toposort::visit (the recursive DFS, verbatim) terminates, never panics, and on success keeps the invariant "
       "'every dependency of a listed node is listed EARLIER' while only appending to the order (TS0-TS4) - the 'declared earlier in the table list' "
@@ -230,13 +230,13 @@ def _safety(name):
     lab = name.split(".", 1)[1]
     if lab.startswith("UA.") or lab.startswith("HP."):
         return True
-    return lab.endswith(".safety") or lab.endswith(".overflow") or lab.endswith(".div0") or lab.endswith(".decreases") or lab.endswith(".unreachable") or lab.endswith(".unwrap") or lab.endswith(".loop_exit") or lab.endswith(".precondition") \
+    return lab.endswith(".safety") or lab.endswith(".overflow") or lab.endswith(".div0") or lab.endswith(".decreases") or lab.endswith(".unreachable") or lab.endswith(".unwrap") or lab.endswith(".index") or lab.endswith(".loop_exit") or lab.endswith(".precondition") \
         or lab in ("SU2", "TR3s", "TR3e", "TR3o", "SB1", "SB2", "TS0", "WF1b", "XA1", "LN1", "TU1", "TU2", "SR1", "SR2", "SQ1", "SQ2", "EN1", "EN2", "EN3", "DL1", "NB1", "WS1", "IP1", "NB2") \
         or name in ("tuple_helpers.TE1", "tuple_helpers.TM1", "tuple_helpers.TZ1", "tuple_helpers.EQ1", "tuple_helpers.EQ2", "tuple_helpers.TI1", "tuple_helpers.MB1", "literal_rows.LR2", "literal_rows.LR3", "pipeline_types.PT1", "pipeline_types.PT2", "pipeline_types.PW1", "pipeline_types.LD1", "pipeline_types.IR1", "pipeline_types.IR2", "lower_ident.LK0", "lower_ident.LK1", "lower_ident.LK2")
 
 
 _ALL_UNITS = ["take_range", "sort_take", "split_order", "window_frame", "dialect_select", "ident_quote", "ids_names", "toposort", "rq_tables",
-              "select_shape", "span_units", "sql_prec", "prql_prec", "literals", "set_ops", "desugar", "resolve_guards", "lex_strings", "limit_clause", "static_eval", "operator_tpl", "rel_names", "lower_cols", "vec_utils", "group_take", "flatten_sort", "star_exclude", "std_arity", "limit_select", "rq_shape", "star_cols", "func_env", "json_lits", "cte_define", "type_meet", "fmt_strings", "concat_ops", "sstring_query", "sstring_cols", "lineage_except", "sort_infer", "setop_pairs", "setops_reach", "tuple_unpack", "resolver_unwraps", "name_lookup", "frame_decls", "select_cols", "lower_transform", "sort_names", "positional_map", "fmt_interp", "datetime_lit", "lex_numbers", "rq_fold", "dialect_flags", "cid_inline", "module_names", "compose_errors", "lex_end_expr", "fmt_names", "header_args", "literal_rows", "tuple_helpers", "pipeline_types", "lower_ident", "sql_templates", "interp_ident"]
+              "select_shape", "span_units", "sql_prec", "prql_prec", "literals", "set_ops", "desugar", "resolve_guards", "lex_strings", "limit_clause", "static_eval", "operator_tpl", "rel_names", "lower_cols", "vec_utils", "group_take", "flatten_sort", "star_exclude", "std_arity", "limit_select", "rq_shape", "star_cols", "func_env", "json_lits", "cte_define", "type_meet", "fmt_strings", "concat_ops", "sstring_query", "sstring_cols", "lineage_except", "sort_infer", "setop_pairs", "setops_reach", "tuple_unpack", "resolver_unwraps", "name_lookup", "frame_decls", "select_cols", "lower_transform", "sort_names", "positional_map", "fmt_interp", "datetime_lit", "lex_numbers", "rq_fold", "dialect_flags", "cid_inline", "module_names", "compose_errors", "lex_end_expr", "fmt_names", "header_args", "literal_rows", "tuple_helpers", "pipeline_types", "lower_ident", "sql_templates", "interp_ident", "table_instance"]
 
 
 def _c12_split_order(n):
